@@ -529,6 +529,9 @@ class C15(World):
             self.probe_all("after " + op.id, charge=False)
             self.judge(op, overlapping=False)
         k = 2 + ch.pick("conc.tasks", 3)
+        if ch.flag("conc.stalls", 0.35):
+            sim.seam_stall_k = [6, 15, 3][ch.pick("conc.stalls.k", 3)]
+            sim.hot_salt = ch.pick("conc.stalls.salt", 1 << 16)
         shared = self.make_client(self.slots[0])
         task_ops = []
 
@@ -584,6 +587,9 @@ class C15(World):
             op = self.do_call(self.make_client(slot), slot, "prefill", {})
             self.judge(op, overlapping=False)
         simexec.MAX_WORKERS_OVERRIDE = [44, 2, 8, 1, 16, 3][ch.pick("scan.max_workers", 6)]
+        if ch.flag("scan.stalls", 0.35):
+            sim.seam_stall_k = [10, 30][ch.pick("scan.stalls.k", 2)]
+            sim.hot_salt = ch.pick("scan.stalls.salt", 1 << 16)
         jobs = []
 
         def on_start(f):
